@@ -23,8 +23,10 @@ CONSTANTS Devs,     \* deviations switched on in the model that is compared with
 
 VARIABLES cs
 
-AllDevs == {"Octal8", "EscapeRange", "PlainCharRaw", "WideCharRaw", "CharConstCpRange",
-            "Utf8Overlong", "Utf8SurrogateHigh"}
+(* Remaining known defects of the shipped code.  Octal8 (fix b953446), Utf8Overlong and Utf8SurrogateHigh *)
+(* (fix aa3a89d), PlainCharRaw and WideCharRaw (fix 1ef9a15) were deviations until those commits; their *)
+(* disjuncts are deleted and the model below transcribes the repaired code.                            *)
+AllDevs == {"EscapeRange", "CharConstCpRange"}
 ASSUME Devs \subseteq AllDevs
 
 BS == 92   SQ == 39   DQ == 34   NL == 10
@@ -227,8 +229,8 @@ MAbort  == [o |-> "abort"]
 
 (* scan.c: isodigit *)
 ScanIsODigit(c) == c >= 48 /\ c < 56
-(* expr.c: isodigit  --  '0' <= c && c <= '8' in the shipped code *)
-ExprIsODigit(c, D) == c >= 48 /\ (IF "Octal8" \in D THEN c <= 56 ELSE c <= 55)
+(* expr.c: isodigit  --  '0' <= c && c <= '7' *)
+ExprIsODigit(c, D) == c >= 48 /\ c <= 55
 
 (* scan.c: escape().  j = index of the character after the backslash; result = index after the escape, 0 = error *)
 ScanEscape(s, j) ==
@@ -259,9 +261,8 @@ Utf8Dec(tok, i, D) ==
       x0 == CASE l = 2 -> (b % 32) [] l = 3 -> (b % 16) [] l = 4 -> (b % 8) [] OTHER -> b
       contOk == \A k \in 1..(l - 1) : At(tok, i + k) >= 128 /\ At(tok, i + k) < 192
       x == FoldLeft(LAMBDA a, k : a * 64 + (At(tok, i + k) % 64), x0, [k \in 1..(l - 1) |-> k])
-      surr == IF "Utf8SurrogateHigh" \in D THEN x >= 55296 /\ x < 55296 + 512     \* x - 0xd800 < 0x0200
-              ELSE x >= 55296 /\ x < 57344
-      overlong == "Utf8Overlong" \notin D /\ ((l = 2 /\ x < 128) \/ (l = 3 /\ x < 2048) \/ (l = 4 /\ x < 65536))
+      surr == x >= 55296 /\ x < 57344                                          \* x - 0xd800 < 0x0800
+      overlong == (l = 2 /\ x < 128) \/ (l = 3 /\ x < 2048) \/ (l = 4 /\ x < 65536)  \* x < (l == 2 ? 0x80 : l == 3 ? 0x800 : 0x10000)
   IN IF l = 0 THEN [ok |-> FALSE]
      ELSE IF l = 1 THEN [ok |-> TRUE, c |-> b, l |-> 1]
      ELSE IF ~contOk THEN [ok |-> FALSE]
@@ -356,11 +357,11 @@ ModelChr(pfx, body, targ, D) ==
      ELSE IF "EscapeRange" \notin D /\ d.hexoct /\ (d.ovf \/ ~WFits(d.w, size)) THEN MReject
      ELSE IF "CharConstCpRange" \notin D /\ ~d.hexoct /\ pfx \in {"u8", "u"}
              /\ NatOfW(d.w) >= (IF pfx = "u8" THEN 128 ELSE 65536) THEN MReject
-     ELSE IF pfx = "" /\ "PlainCharRaw" \notin D THEN          \* (char)chr converted to int
-          IF CharSigned(targ) /\ low >= 128 THEN OkChr(ty, size, <<65535, 65280 + low>>, TRUE)
-          ELSE OkChr(ty, size, <<0, low>>, FALSE)
-     ELSE IF "WideCharRaw" \notin D /\ pfx = "L" THEN OkChr(ty, size, d.w, WcharSigned(targ) /\ d.w[1] >= 32768)
-     ELSE OkChr(ty, size, d.w, FALSE)                          \* mkconstexpr(t, chr): raw 32-bit value
+     ELSE IF pfx = "" THEN          \* !t: if (targ->signedchar && val >= 0x80 && val < 0x100) val -= 0x100; larger codes stay raw
+          IF CharSigned(targ) /\ d.w[1] = 0 /\ d.w[2] >= 128 /\ d.w[2] < 256 THEN OkChr(ty, size, <<65535, 65280 + low>>, TRUE)
+          ELSE OkChr(ty, size, d.w, FALSE)
+     ELSE                            \* t->u.basic.issigned && top bit of the 32-bit unit: sign-extend (only wchar_t = int is signed)
+          OkChr(ty, size, d.w, pfx = "L" /\ WcharSigned(targ) /\ d.w[1] >= 32768)
 
 Model(c, D) == IF c.ctx = "str" THEN ModelStr(c.parts, c.targ, D)
                ELSE ModelChr(c.parts[1].pfx, c.parts[1].body, c.targ, D)
